@@ -72,6 +72,9 @@ func VF_C06_params() {
 	pos := vfChoice("pos", 5)
 	referrer, _ := vfPlace(&o, pos, []string{x}, nil)
 	err := ValidateParamsExist(o)
+	if err != nil {
+		vfObserve("diagnostics", err.Error())
+	}
 	dangling := !vfIn(x, params)
 	vfAssertKnown((err != nil) == dangling, "missing parameter detected iff not declared", "D4", pos == 4)
 	if err != nil {
@@ -92,6 +95,9 @@ func VF_C06_services() {
 	pos := 1 + vfChoice("pos", 4)
 	_, referrer := vfPlace(&o, pos, nil, []string{y})
 	err := ValidateServicesExist(o)
+	if err != nil {
+		vfObserve("diagnostics", err.Error())
+	}
 	dangling := !vfIn(y, services)
 	vfAssert((err != nil) == dangling, "missing service detected iff not declared")
 	if err != nil {
